@@ -31,7 +31,6 @@ fn setup() -> (Env, Address, Address, bool, Address, bool) {
 
 // HARNESS props=C17,C06 tier=quick profile=ops shape="add/remove of an arbitrary address, arbitrary prior membership, witness member; 4 principals"
 #[kani::proof]
-#[kani::unwind(68)]
 fn c17_membership_step() {
     let (env, owner, target, t_was, witness, w_was) = setup();
     let add: bool = kani::any();
@@ -44,7 +43,7 @@ fn c17_membership_step() {
     });
     match r {
         Ok(()) => {
-            kani::assert(model::auth_of(&owner), "VERIF:C06:the operator set changes only with the current owner's authorisation");
+            kani::assert(model::auth_of(&owner), "VERIF:C06,C17:the operator set changes only with the current owner's authorisation");
             kani::assert(t_was != add, "VERIF:C17:only an absent address can be added and only a present one removed");
             kani::assert(member(&target) == add, "VERIF:C17:the named address joins or leaves the operator set");
             let name = if add { "operator_added" } else { "operator_removed" };
@@ -114,7 +113,7 @@ fn c17_execute(nargs: usize) {
     let r = model::with_contract(&ops(), || AxelarOperators::execute(env.clone(), operator.clone(), contract.clone(), func.clone(), args.clone()));
     match r {
         Ok(v) => {
-            kani::assert(model::auth_of(&operator), "VERIF:C07:a call is forwarded only with the operator's own authorisation");
+            kani::assert(model::auth_of(&operator), "VERIF:C07,C17:a call is forwarded only with the operator's own authorisation");
             kani::assert(is_member, "VERIF:C17:only a current member of the operator set can execute");
             kani::assert(unsafe { P_CALLS == 1 && P_ADDR == contract.0 && P_FN_OK && P_ARGS_OK }, "VERIF:C17:exactly the named contract, function and arguments are called, once");
             kani::assert(unsafe { !P_FAIL }, "VERIF:C17:a failing target makes the whole call fail");
@@ -130,14 +129,12 @@ fn c17_execute(nargs: usize) {
 }
 // HARNESS props=C17,C07 tier=quick profile=ops shape="execute with 0 arguments"
 #[kani::proof]
-#[kani::unwind(68)]
 #[kani::stub(soroban_sdk::model::invoke_raw, probe)]
 fn c17_execute_a0() {
     c17_execute(0)
 }
 // HARNESS props=C17,C07 tier=quick profile=ops shape="execute with 2 arguments (u64 or address atoms)"
 #[kani::proof]
-#[kani::unwind(68)]
 #[kani::stub(soroban_sdk::model::invoke_raw, probe)]
 fn c17_execute_a2() {
     c17_execute(2)
@@ -145,7 +142,6 @@ fn c17_execute_a2() {
 
 // HARNESS props=C06,C17 tier=quick profile=ops shape="constructor"
 #[kani::proof]
-#[kani::unwind(68)]
 fn c17_constructor() {
     let env = Env::default();
     let owner = any::address(4);
